@@ -1,6 +1,7 @@
 package main
 
 import (
+	"time"
 	"fmt"
 	"go/ast"
 	"go/token"
@@ -33,6 +34,7 @@ func (fi *FuncInfo) Body() *ast.BlockStmt {
 func (fi *FuncInfo) FullKey() string { return fi.Pkg.PkgPath + "::" + fi.Key }
 
 type Prog struct {
+	replayDeadline time.Time // counterexample search for failed obligations stops after this point
 	curProp string // property being checked (scopes which tagged clauses take part)
 	u       *Universe
 	fset    *token.FileSet
